@@ -38,6 +38,9 @@ CLAIMS = {
  "C14": ("exploration", "8.C14", "deterministic simulation of the host link: frames written by the real drivers and mutated response frames delivered to them, judged by independent frame validators and reference CRCs",
          "(a) every frame the drivers write (fault-free runs plus a sweep over command codes x payload lengths on both sides of the 254/255 format switch) is parsed by independent validators (PN53x normal/extended, ACK, arygon prefix, CCID + pseudo APDU, RC-S380); (b) every single-bit flip, truncation, extension and seeded substitution of valid responses is delivered by the simulated link: data returned implies valid under the validator and equal payload, else IOError; (c) CRC_A/CRC_B on the driver paths against bitwise references.",
          "the pure-function sub-claim (CRC functions equal the ISO definition for all short messages) is covered only as far as messages flow through the simulated driver paths (DESIGN section 9)"),
+ "C17": ("exploration", "8.C17", "deterministic simulation: seeded operation histories on two connected real LLCs (live run loops) vs an address-table reference model",
+         "Seeded histories of socket/bind/listen/serve/connect/accept/sendto/recvfrom/resolve/close (and repeated close of stale handles) on two live link controllers; after every operation success/errno/address, the SAP table and the name list of both controllers are compared with the reference model; datagrams must arrive only at the socket bound at their destination with payload and source intact; resolve and connect-by-name must reach the socket bound under the name.",
+         "errno naming details as stated in the assumptions; connect by address to an address without any service access point is not judged (not part of the statement)"),
 }
 NA = {
  "C11": "pure encode/decode function of its argument: no schedule, clock, fault, peer or history enters the statement; deterministic simulation adds nothing over input generation (DESIGN.md section 9)",
